@@ -229,8 +229,10 @@ Proved: the `merge` step (`Block::merge`) for arbitrary states — it makes the 
 joins the two blocks, and preserves every intra-block offset difference (so constraints that were
 tight stay tight); plus the two facts that make "tight" meaningful: the slack of an intra-block
 constraint depends on offsets only, and `scale·position` is the block coordinate plus the offset.
-Missing: the same for `split` / `splitBetween` (tree traversal `populateSplit`), the spanning-tree
-part, and the induction over solver steps.  The driver compares active sets with the real code instead,
+Also proved: `split` leaves all offsets unchanged (`block_inv_split_offsets_partial`) and the invariants
+hold initially and under addConstraint / desired-position changes (`history_inv_partial`).
+Missing: that `split` separates the block exactly along the removed tree edge (the spanning-tree
+part), and hence the induction over all solver steps.  The driver compares active sets with the real code instead,
 and `checkPost` checks unflagged equalities two-sidedly on every real output.
 -/
 
@@ -269,6 +271,18 @@ theorem block_inv_merge_preserved_partial (st : St) (ci : Nat) (hinv : OffsetInv
         st.cons.all fun c => !c.active ||
           ((st.vars[c.l]!).block == (st.vars[c.r]!).block &&
            decide ((st.vars[c.r]!).offset - c.gap - (st.vars[c.l]!).offset = 0)))
+
+open AdaptaVerif.Lemmas.VpscHistory in
+/-- split step of `block_inv` (offset part only): `Block::split` / `splitBetween` / `splitBlocks`
+    never change an offset and only clear `active` on the split constraint, so every constraint keeps
+    its offset-slack `offset_r − gap − offset_l` — tight constraints stay tight.  (Missing for the full
+    invariant: that the two new blocks separate exactly along the removed tree edge, i.e. every other
+    active constraint still has both ends in one block; this needs the spanning-tree part.) -/
+theorem block_inv_split_offsets_partial (st : St) (old ci : Nat) :
+    ((st.split old ci).1.vars.size = st.vars.size ∧
+      ∀ i : Nat, ((st.split old ci).1.vars[i]!).offset = (st.vars[i]!).offset) ∧
+    (st.split old ci).1.cons = st.cons.set! ci { st.cons[ci]! with active := false } :=
+  split_offsets st old ci
 
 /-! ## history lemma (partial: every operation except `split`)
 
